@@ -220,4 +220,28 @@ VARIANTS = [
         {"file": BC, "old": "class Circuit:\n", "new": "def _table_key(m):\n    return m.packet_id\n\n\nclass Circuit:\n"},
         {"file": BC, "old": "                del self.unacked_reliable[(msg.direction, msg.packet_id)]\n",
          "new": "                del self.unacked_reliable[_table_key(msg)]\n"}]},
+    # ------------------------------------------------------------------ round 7
+    {"name": "R1 client settings turn deferred body parsing off", "file": HC, "expect": "C19.R1",
+     "old": "class ClientSettings(Settings):\n", "new": "class ClientSettings(Settings):\n    ENABLE_DEFERRED_PACKET_PARSING: bool = SettingDescriptor(False)\n"},
+    {"name": "P R1 client settings restate the deferred-parsing default", "file": HC, "expect": "silent",
+     "old": "class ClientSettings(Settings):\n", "new": "class ClientSettings(Settings):\n    ENABLE_DEFERRED_PACKET_PARSING: bool = SettingDescriptor(True)\n"},
+    {"name": "R1 unvalidated last-region shortcut in the address lookup", "file": "hippolyzer/lib/client/state.py", "expect": "C19.R1",
+     "old": "        for region in self.regions:\n            if region.circuit_addr == circuit_addr and region.circuit:\n"
+            "                return region\n        return None\n",
+     "new": "        last = getattr(self, \"_last_region\", None)\n        if last is not None and last.circuit:\n"
+            "            return last\n        for region in self.regions:\n"
+            "            if region.circuit_addr == circuit_addr and region.circuit:\n                self._last_region = region\n"
+            "                return region\n        return None\n"},
+    {"name": "P R2 dedupe verdict fetched through a helper method", "expect": "silent", "edits": [
+        {"file": HC, "old": TRK, "new": "            should_handle = self._is_new(region, message)\n"},
+        {"file": HC, "old": "    def datagram_received(self, data, source_addr: ADDR_TUPLE):\n",
+         "new": "    def _is_new(self, region, message):\n        return region.circuit.track_reliable(message.packet_id)\n\n"
+                "    def datagram_received(self, data, source_addr: ADDR_TUPLE):\n"}]},
+    {"name": "R2 helper verdict fetched but the region dispatch ignores it", "expect": "C19.R2", "edits": [
+        {"file": HC, "old": TRK, "new": "            should_handle = self._is_new(region, message)\n"},
+        {"file": HC, "old": "    def datagram_received(self, data, source_addr: ADDR_TUPLE):\n",
+         "new": "    def _is_new(self, region, message):\n        return region.circuit.track_reliable(message.packet_id)\n\n"
+                "    def datagram_received(self, data, source_addr: ADDR_TUPLE):\n"},
+        {"file": HC, "old": "        if should_handle:\n            region.message_handler.handle(message)\n",
+         "new": "        region.message_handler.handle(message)\n"}]},
 ]
